@@ -107,7 +107,13 @@ def gen_obj(rng, base, unit, grid):
             row = [rng.choice((0.0, 0.5, 1.0, -1.0, 2.5, -0.25)) * unit for _ in range(g["num_steps"])]
             row[0] = row[-1] = 0.0
             vals.append(row)
-        return dict(g, t="approx_vals", values=vals, hom_deg=hd)
+        spec = dict(g, t="approx_vals", values=vals, hom_deg=hd)
+        if rng.random() < 0.4:            # integer samples handed over as an integer array
+            spec["values"] = [[float(rng.choice((0, 1, 2, -1, 3))) for _ in range(g["num_steps"])] for _ in range(nd)]
+            for row in spec["values"]:
+                row[0] = row[-1] = 0.0
+            spec["int_values"] = True
+        return spec
     return dict(g, t="vectorize", src={"t": "exact_dgm", "dgms": [gen_bars(rng, base, unit), gen_bars(rng, base, unit)],
                                        "hom_deg": hd, "compute": True})
 
@@ -244,7 +250,10 @@ def build(spec, Exact, Approx, tools):
             raise InvalidCase("values")
         if any(r[0] != 0 or r[-1] != 0 for r in v):
             raise InvalidCase("values must vanish at both ends")
-        return quiet(Approx, values=np.array(v, dtype=float), hom_deg=hd, **g)
+        arr_ = np.array(v, dtype=float)
+        if spec.get("int_values") and np.all(arr_ == np.round(arr_)):
+            arr_ = arr_.astype(np.int64)
+        return quiet(Approx, values=arr_, hom_deg=hd, **g)
     if t == "vectorize":
         src = build(spec["src"], Exact, Approx, tools)
         if spec["src"].get("t") != "exact_dgm":
